@@ -422,13 +422,26 @@ impl Catalog {
                         let mut tuple = Tuple::from_slice_unchecked(bytes)?;
                         let xmin = tuple.xmin();
 
-                        let freed = if snapshot.is_transaction_aborted(xmin) || tuple.is_deleted() {
+                        // A delete mark set by a rolled-back transaction does not count: the row
+                        // is still live, and the mark is cleared so that it cannot be mistaken
+                        // for a committed delete once the aborted set has been trimmed.
+                        let aborted_delete = match tuple.xmax() {
+                            Some(xmax) => snapshot.is_transaction_aborted(xmax),
+                            None => false,
+                        };
+
+                        let freed = if snapshot.is_transaction_aborted(xmin)
+                            || (tuple.is_deleted() && !aborted_delete)
+                        {
                             let freed = tuple.full_data().len();
                             tuples_to_remove.push(tuple);
                             freed
                         } else {
+                            if aborted_delete {
+                                tuple.clear_delete_mark()?;
+                            }
                             let freed = tuple.vaccum_with(oldest_active_xid, schema)?;
-                            if freed > 0 {
+                            if freed > 0 || aborted_delete {
                                 tuples_to_vaccum.push(tuple);
                             };
                             freed
